@@ -113,6 +113,28 @@ reg("C26","mux","exploration","reference-model comparison (slice-backed FIFO) ov
     "every sequence of up to 5-6 (quick) / 6-8 (thorough) operations from a 24-operation alphabet (Write, WriteByte, Read, ReadByte, ReadNFrom with short/EOF/error readers, WriteTo with short/failing writers, Reset) for capacities 0..3, plus random 10^4-operation sequences on capacities up to 70000: results, Used/Free/Size and drained contents agree with the model.",
     "sequence enumeration copies ring.Buffer by its (start-up verified) memory layout to branch cheaply")
 
+reg("C19","rsyncx","exploration","round-trip oracle over an exhaustively enumerated input space of the real rsync engine",
+    "all base/target strings over {a,b} up to length 6 (quick) / 8 (thorough) x every block size x maximum data-operation sizes {1,2,3,5,default}: Patch(base, Deltify(target)) == target, every operation valid and within bounds, literal operations within the limit, no literal data for an unchanged target; streaming Deltify with short reads; random inputs up to 4 MiB with splices.",
+    "exhaustive only within the stated bound")
+reg("C20","rsyncx","fault_enumeration","enumeration of a transmit failure at every operation index (transient and persistent) through Deltify and Transmit",
+    "inputs built to reach all seven transmit sites; for every operation index k the transmitter fails once or from k on: either the sender returns an error or the receiver reconstructs exactly the target; same through rsync.Transmit with an encoding receiver feeding a real receiver. The run refuses a verdict if a site was never faulted.",
+    "one fault schedule per run (once at k, or always from k)")
+reg("C38","misc","exploration","round-trip oracle over grammar-generated URL strings",
+    "2*10^5 (quick) / 10^7 (thorough) strings from a grammar covering users, hosts, ports with leading zeros, Windows and home-relative paths, forwarding endpoints and docker:// in mixed case, both kinds: Parse ok implies EnsureValid nil and Parse(Format()) equal to the first result.",
+    "Docker environment variables are fixed during the run")
+reg("C39","misc","exploration","scripted crypto/rand.Reader driving the real identifier generator + exact collision map",
+    "identifier.New driven with structured 32-byte values (all-zero, every leading-zero length, 62^k +- 1 boundaries, digit runs, single bits, all-0xff) and random draws: documented prefix and length, IsValid, truncated form is a prefix, distinct inputs give distinct identifiers; names: UUID-shaped and reserved words rejected, random Unicode names judged by the documented rule.",
+    "crypto/rand.Reader is replaced inside the monitor process only")
+reg("C44","misc","exploration","capturing sink + line-structure oracle over random messages and relayed byte streams",
+    "random messages and relayed streams through Logger.Writer containing newlines, carriage returns, ESC sequences, forged prefixes, random fragmentation: every record passing the level filter is exactly one sink write ending in one newline with no other newline, carriage return or escape, with timestamp, level letter and scope; filtered records produce nothing.",
+    "a relayed line of a disabled-level logger is treated as optional (unspecified)")
+reg("C45","misc","exploration","reference-model comparison (slice model) over exhaustively enumerated operation sequences",
+    "all Add/Get/Remove(/Len) sequences over 3 keys up to length 6-7 (quick) / 8-9 (thorough) for capacities 0..3 plus random long sequences: results, Len after every step and the eviction-callback log (exactly once per departing entry, least recently used first) agree with the model.",
+    "capacity 0 = unlimited and Remove fires the callback, as documented")
+reg("C47","misc","exploration","contract oracles for each stream helper with scripted short-writing/failing downstreams, race detector on",
+    "cutoff writer (exactly the first N bytes downstream, later bytes reported written), line processor (lines split at newline, one trailing CR trimmed, any fragmentation, overflow at the configured size), hashing writer (digest of exactly the accepted bytes), preemptable writer (stops within its check interval), valve (nothing after Shut, callers see success), multi-closer (each closed once, first error); concurrent variants under -race.",
+    "each helper is held to its doc comment")
+
 NOT_APPLICABLE = {}
 def main():
     props=[json.loads(l)["id"] for l in open("/verif/properties.jsonl")]
